@@ -63,7 +63,7 @@ def unit_for(dim, variant=0):
     import astropy.units as u
 
     tbl = {"time": [u.day, u.yr, u.hour], "one": [u.one], "angle": [u.rad, u.deg], "vel": [u.km / u.s, u.m / u.s, u.pc / u.Myr],
-           "other": [u.kg]}
+           "other": [u.kg], "velrad": [u.km / u.s * u.rad, u.m / u.s * u.deg]}
     if dim.startswith("vel/t"):
         i = int(dim[5:])
         return [u.km / u.s / u.day**i, u.m / u.s / u.yr**i][variant % 2] if i > 0 else tbl["vel"][variant % 3]
@@ -74,10 +74,16 @@ def wrong_dim(dim):
     return {"time": "vel", "one": "time", "angle": "time", "vel": "time"}.get(dim, "vel" if dim != "vel/t0" else "time")
 
 
+def wrong_dim2(dim):
+    """a second wrong dimension, differing from the required one only by an angle factor (angles are not plain numbers here:
+    an eccentricity in degrees or an argument of pericentre without unit does not convert to the canonical unit)"""
+    return {"time": "other", "one": "angle", "angle": "one"}.get(dim, "velrad")
+
+
 def dim_term(dim):
     if dim.startswith("vel/t"):
         return f"(DVelPerTime {int(dim[5:])})"
-    return {"time": "DTime", "one": "DOne", "angle": "DAngle", "vel": "DVel", "other": "DOtherDim"}[dim]
+    return {"time": "DTime", "one": "DOne", "angle": "DAngle", "vel": "DVel", "other": "DOtherDim", "velrad": "DOtherDim"}[dim]
 
 
 FAMILY_KIND = {"normal": "KNormal", "fcm": "KFixedCompanionMass", "uniform": "KOtherRandom", "halfnormal": "KOtherRandom", "studentt": "KOtherRandom",
@@ -188,6 +194,7 @@ def gen_configs(ctx):
                 perts.append((n, "omit"))
                 perts.append((n, "nounit"))
                 perts.append((n, "wrongdim"))
+                perts.append((n, "wrongdim2"))
                 if is_linear(n):
                     for fam in ("uniform", "halfnormal", "studentt", "deterministic"):
                         perts.append((n, "fam:" + fam))
@@ -216,6 +223,8 @@ def apply_perts(cfg, perts):
             c["has_unit"] = False
         elif what == "wrongdim":
             c["dim"] = wrong_dim(c["dim"])
+        elif what == "wrongdim2":
+            c["dim"] = wrong_dim2(c["dim"])
         elif what.startswith("fam:"):
             c["family"] = what[4:]
     return cfg
@@ -303,14 +312,35 @@ def data_cases(ctx):
     shapes.append(("Many [SrcRV true; SrcRV false]", lambda: [cov, mk(0)]))
     shapes.append(("Many [SrcRV false; SrcOther]", lambda: [mk(0), "not data"]))
     shapes.append(("Many [SrcOther; SrcRV false; SrcRV false]", lambda: [3, mk(0), mk(1)]))
+    # every (shape, offsets) combination on a fresh sampler, and -- for list / dict shapes -- on a sampler that has just processed a
+    # valid call with the SAME container object, which is then changed in place into the shape: validation happens at every call
+    runs = []
     for dterm, make in shapes:
         for noff in (0, 1, 2):
+            runs.append((dterm, make, noff, False))
+            if noff >= 1 and isinstance(make(), (list, dict)):
+                runs.append((dterm, make, noff, True))
+    for dterm, make, noff, warm in runs:
+        if True:
             joker = TheJoker(priors[noff], rng=np.random.default_rng(0))
-            case = dict(family="data", data=dterm, noff=noff)
+            case = dict(family="data", data=dterm, noff=noff, after_valid_call_with_same_container=warm)
+            target = make()
+            if warm:
+                valid = [mk(i) for i in range(noff + 1)]
+                box = list(valid) if isinstance(target, list) else {f"v{i}": d_ for i, d_ in enumerate(valid)}
+                with warnings.catch_warnings():
+                    warnings.simplefilter("ignore")
+                    joker.marginal_ln_likelihood(box, lib, in_memory=True)
+                if isinstance(box, list):
+                    box[:] = target
+                else:
+                    box.clear()
+                    box.update(target)
+                target = box
             try:
                 with warnings.catch_warnings():
                     warnings.simplefilter("ignore")
-                    ll = joker.marginal_ln_likelihood(make(), lib, in_memory=True)
+                    ll = joker.marginal_ln_likelihood(target, lib, in_memory=True)
                 obs = "DOk"
                 if not np.all(np.isfinite(ll)):
                     ctx.fail("predicate", "C18:data", f"accepted data gave non-finite likelihoods ({dterm}, offsets={noff})", case=case)
